@@ -68,7 +68,7 @@ def replay_all(behs, scen, c, units, seed, framings=('cl',), jitter=True, thread
         evs = run.finish()
         tid = len(traces) + 1
         traces.append({'id': tid, 'mode': 'tunnel' if scen == 'tunnel' else 'http', 'ev': evs, 'exec': 'threaded' if threaded else 'threadless'})
-        info = {'id': tid, 'scen': scen, 'U': U, 'framing': framing if scen == 'http' else None, 'pieces': pieces, 'jitter': jit, 'mode': 'threaded' if threaded else 'threadless',
+        info = {'id': tid, 'scen': scen, 'U': U, 'framing': run.framing if scen == 'http' else None, 'pieces': pieces, 'jitter': jit, 'mode': 'threaded' if threaded else 'threadless',
                 'schedule': [a for a, _, _ in b][1:], 'consts': n, 'run_seed': run.seed,
                 'client_got': len(run.c.got), 'client_eof': run.c.eof_seen,
                 'loop_alive': run.sim.alive}
